@@ -81,6 +81,8 @@ func (v *Variants) Get(name string) *Env {
 			opts = append(opts, server.WithListObjectsIteratorCacheEnabled(true), server.WithListObjectsIteratorCacheTTL(2*time.Minute), server.WithListObjectsIteratorCacheMaxResults(1000))
 		case p == "shi": // shared iterators
 			opts = append(opts, server.WithSharedIteratorEnabled(true))
+		case p == "t300": // short iterator-cache TTLs: changes can straddle the TTL window (partial invalidation)
+			opts = append(opts, server.WithCheckIteratorCacheTTL(300*time.Millisecond), server.WithListObjectsIteratorCacheTTL(300*time.Millisecond))
 		case p == "cc": // cache controller, invalidation triggered by (almost) every request
 			opts = append(opts, server.WithCacheControllerEnabled(true), server.WithCacheControllerTTL(time.Millisecond))
 		case p == "thr":
